@@ -22,8 +22,10 @@ HeaderMsgs == {"hdrBSV", "hdrBCH", "hdrUnknown", "hdrEmpty", "hdrBSVSecond", "hd
 \* the next header of our chain) arrives, the rest of the declared length never does
 ShortMsgs == {"hdrBSVShort", "hdrGoodShort"}
 Msgs == {"version", "verack", "ping", "pongOK", "pongBad", "protoconf", "reject", "addr", "getaddr",
-         "inv", "invBlock", "tx", "block", "blockWanted", "reqblock", "extTx", "extBlock", "extOther", "other"}
+         "inv", "invBlock", "tx", "block", "blockWanted", "reqblock", "extTx", "extBlock", "extOther", "other",
+         "txAgain", "invSeen"}
         \cup HeaderMsgs
+\* "txAgain" is the transaction of the last tx message once more, "invSeen" an inventory of exactly that transaction.
 \* "reqblock" is not a message: it is the node manager calling RequestBlock on the (ready) node, after which
 \* the block handler is installed and "blockWanted" is the requested block.
 
@@ -35,15 +37,17 @@ VARIABLES q,             \* handshake queue (sequence of "version"/"verack")
           desync,        \* stream position not at a message boundary
           protoconfs,
           breq,          \* a block request is outstanding on this node
+          seenTx,        \* what the tx manager knows of the transaction that txAgain / invSeen refer to:
+                         \* "none", "asked" (announced by this peer and requested from it), "got" (received)
           nmsgs,
           out,           \* commands sent by the last step (bag as sequence, sorted by the harness)
           sinks,         \* sink calls made by the last step
           lastIn         \* message handled by the last step ("" for goroutine steps)
-vars == <<q, hs, hsComplete, ready, verified, closed, deaf, desync, protoconfs, breq, nmsgs, out, sinks, lastIn>>
+vars == <<q, hs, hsComplete, ready, verified, closed, deaf, desync, protoconfs, breq, seenTx, nmsgs, out, sinks, lastIn>>
 
 Init == /\ q = <<>> /\ hs = [vrcv |-> FALSE, vasent |-> FALSE, varcv |-> FALSE, done |-> FALSE]
         /\ hsComplete = FALSE /\ ready = FALSE /\ verified = FALSE /\ closed = FALSE
-        /\ deaf = FALSE /\ desync = FALSE /\ protoconfs = 0 /\ breq = FALSE /\ nmsgs = 0
+        /\ deaf = FALSE /\ desync = FALSE /\ protoconfs = 0 /\ breq = FALSE /\ seenTx = "none" /\ nmsgs = 0
         /\ out = {"version", "ping"} /\ sinks = {} /\ lastIn = ""
 
 Alive == ~closed /\ ~deaf /\ ~desync
@@ -63,6 +67,12 @@ Recv(m) ==
   /\ Alive /\ nmsgs < MaxMsgs /\ nmsgs' = nmsgs + 1 /\ lastIn' = m
   /\ (m = "reqblock" => ready /\ ~breq)
   /\ breq' = (IF m = "reqblock" THEN TRUE ELSE IF m = "blockWanted" /\ ready THEN FALSE ELSE breq)
+  \* a transaction reaches the tx manager only through the handlers installed by accept(); a fresh "tx" replaces
+  \* the one txAgain / invSeen refer to
+  /\ seenTx' = (IF m \in {"tx", "extTx"} THEN (IF ready /\ HasTxMgr THEN "got" ELSE "none")
+               ELSE IF m = "txAgain" /\ ready /\ HasTxMgr THEN "got"
+               ELSE IF m = "invSeen" /\ ready /\ HasTxMgr /\ seenTx = "none" THEN "asked"
+               ELSE seenTx)
   /\ CASE m \in {"version", "verack"} ->
             \* handed to the handshake goroutine; once that has finished nobody reads the queue: the
             \* message is dropped (non-blocking hand-over)
@@ -106,6 +116,14 @@ Recv(m) ==
                        /\ Same(<<q, ready, verified, closed, deaf, desync, protoconfs>>)
        [] m \in {"tx", "extTx"} -> /\ sinks' = IF ready /\ HasTxMgr THEN {"AddTx"} ELSE {}
                                    /\ out' = {} /\ Same(<<q, ready, verified, closed, deaf, desync, protoconfs>>)
+       [] m = "txAgain" -> \* delivered to the processor once: the repetition is recognised and dropped
+                 /\ sinks' = IF ready /\ HasTxMgr /\ seenTx # "got" THEN {"AddTx"} ELSE {}
+                 /\ out' = {} /\ Same(<<q, ready, verified, closed, deaf, desync, protoconfs>>)
+       [] m = "invSeen" -> \* nothing is requested for a transaction that has been received, or that this peer
+                           \* has been asked for a moment ago
+                 /\ sinks' = IF ready /\ HasTxMgr /\ seenTx = "none" THEN {"AddTxID"} ELSE {}
+                 /\ out' = IF ready /\ HasTxMgr /\ seenTx = "none" THEN {"getdata"} ELSE {}
+                 /\ Same(<<q, ready, verified, closed, deaf, desync, protoconfs>>)
        [] m = "reqblock" -> out' = {"getdata"} /\ sinks' = {} /\ Same(<<q, ready, verified, closed, deaf, desync, protoconfs>>)
        [] m = "blockWanted" -> \* the requested block reaches the block handler; any other block is only consumed
                  /\ sinks' = IF ready /\ breq THEN {"BlockHandler"} ELSE {}
@@ -127,7 +145,7 @@ Hs == /\ ~hs.done /\ ~closed /\ Len(q) > 0 /\ lastIn' = ""
             /\ out' = (IF m = "version" /\ ~hs.vasent THEN {"verack"} ELSE {})
                       \cup (IF fin THEN {"protoconf", "getheadersVerify"} ELSE {})
       /\ sinks' = {}
-      /\ Same(<<ready, verified, closed, deaf, desync, protoconfs, breq, nmsgs>>)
+      /\ Same(<<ready, verified, closed, deaf, desync, protoconfs, breq, seenTx, nmsgs>>)
 
 Next == (\E m \in Msgs : Recv(m)) \/ Hs
 Spec == Init /\ [][Next]_vars
